@@ -33,6 +33,8 @@ impl<const BITS: usize, const LIMBS: usize> EncodeValue for Uint<BITS, LIMBS> {
         // Add leading `0x00` byte if the first byte has the highest bit set.
         // or if the sequence is empty.
         if bytes.first().copied().unwrap_or(0x80) >= 0x80 {
+            #[cfg(feature = "recmo_uint_verif")]
+            crate::verif_hooks::hit(168);
             writer.write_byte(0x00)?;
         }
         writer.write(&bytes)
@@ -174,8 +176,16 @@ fn from_der_slice<const BITS: usize, const LIMBS: usize>(
     // Handle sign bits and zero-prefix.
     let bytes = match bytes {
         [] => Err(Tag::Integer.length_error()),
-        [0, byte, ..] if *byte < 0x80 => Err(Tag::Integer.non_canonical_error()),
-        [0, rest @ ..] => Ok(rest),
+        [0, byte, ..] if *byte < 0x80 => {
+            #[cfg(feature = "recmo_uint_verif")]
+            crate::verif_hooks::hit(173);
+            Err(Tag::Integer.non_canonical_error())
+        }
+        [0, rest @ ..] => {
+            #[cfg(feature = "recmo_uint_verif")]
+            crate::verif_hooks::hit(172);
+            Ok(rest)
+        }
         [byte, ..] if *byte >= 0x80 => Err(Tag::Integer.value_error()),
         bytes => Ok(bytes),
     }?;
